@@ -91,3 +91,78 @@ def model_compare(which, rows, rep):
                 rep.violation('%s<%s> on a unimodular integer %dx%d matrix under %s: the %s differs from the Coq model (Doolittle over Z, exact): got %s, model %s' % (head[1], head[2], n, n, cfg.name, nm, got[:12], want[:12]),
                               {'cfg': cfg.name, 'size': n, 'record': head, 'A': im[0], 'implementation': got, 'model': want}, key='model:%s:%s:%d:%s' % (head[1], head[2], n, cfg.name))
     return len(recs)
+
+
+def _split_rec(p):
+    parts = ' '.join(p).split(':'); head = parts[0].split()
+    return head, [[parse_num(x) for x in q.split()] for q in parts[1:]]
+
+def pivot_compare(rows, rep):
+    """'P' records (unary_piv_op.h helpers on small-integer matrices, ties included) against the extracted Coq model
+    Model/Pivot.v: the permutation vector, its matrix encoding, the permutation computed from an expression, apply_pivot
+    (vector / matrix / in place), reconstruct and reconstruct_colwise must be exactly the model's"""
+    recs = []
+    for n, ty, cfg, p in rows:
+        if p[0] != 'P': continue
+        head, mats = _split_rec(p)
+        if len(mats) != 10 or any(isinstance(v, str) for m in mats for v in m):
+            rep.violation('pivot record malformed under %s (n=%d): %s' % (cfg.name, n, ' '.join(p)[:200]), {'cfg': cfg.name, 'line': ' '.join(p)}, key='pivot-malformed:%s:%d' % (cfg.name, n)); continue
+        recs.append((n, ty, cfg, head, [[int(v) for v in m] for m in mats]))
+    if not recs: return 0
+    ocaml_ready(); st = []
+    for i, (n, ty, cfg, head, m) in enumerate(recs):
+        A = m[0]
+        st.append('(let p = run_pivot %d (zl %s) in pn "perm" %d p; pz "apply" %d (run_apply_pivot %d (zl %s) p); pz "recon" %d (run_reconstruct %d (zl %s) p); pz "colw" %d (run_reconstruct_colwise %d (zl %s) p))'
+                  % (n, ml_ints(A), i, i, n, ml_ints(A), i, n, ml_ints(A), i, n, ml_ints(A)))
+    res = {}
+    for ln in ocaml_eval(st):
+        q = ln.split(); res[(q[0], int(q[1]))] = [int(x) for x in q[2:]]
+    seen = set()
+    for i, (n, ty, cfg, head, m) in enumerate(recs):
+        want = {'perm': res[('perm', i)], 'apply': res[('apply', i)], 'recon': res[('recon', i)], 'colw': res[('colw', i)]}
+        pairs = [('permutation vector of pivot_inplace', m[1], want['perm']), ('apply_pivot(A,P)', m[2], want['apply']), ('reconstruct(A,P)', m[3], want['recon']),
+                 ('reconstruct_colwise(A,P)', m[4], want['colw']), ('permutation read off the matrix pivot', m[5], want['perm']), ('apply_pivot(A,Pmatrix)', m[6], want['apply']),
+                 ('apply_pivot_inplace(A,P)', m[7], want['apply']), ('apply_pivot_inplace(A,Pmatrix)', m[8], want['apply']), ('pivot(expression)', m[9], want['perm'])]
+        for nm, got, w in pairs:
+            if got != w and (nm, n, cfg.name) not in seen:
+                seen.add((nm, n, cfg.name))
+                rep.violation('%s on a %dx%d %s integer matrix (seed %s) under %s differs from the Coq model (Model/Pivot.v): got %s, model %s' % (nm, n, n, ty, head[1], cfg.name, got[:16], w[:16]),
+                              {'cfg': cfg.name, 'size': n, 'type': ty, 'A': m[0], 'what': nm, 'implementation': got, 'model': w,
+                               'compile_cmd': ' '.join(cfg.cmd('linalg.cpp', 't.exe')) + ' -DWHICH=11 -DNN=%d -DTY=%s' % (n, ty)}, key='pivot:%s:%d:%s' % (nm, n, cfg.name))
+    return len(recs)
+
+def closed_compare(rows, rep):
+    """'C' records (adj, cof, determinant, inverse of 2x2..4x4 integer matrices) against the kernels TRANSLATED from the
+    source on this run (coq/Gen/GeneratedLinalg.v), evaluated over Z inside coqc (vm_compute): checks the translator against
+    the compiled code, and the float/double SIMD specialisations against the generic kernels"""
+    recs = []
+    for n, ty, cfg, p in rows:
+        if p[0] != 'C': continue
+        head, mats = _split_rec(p)
+        if any(isinstance(v, str) for m in mats for v in m) or any(float(v) != int(float(v)) for m in mats for v in m): continue
+        recs.append((n, ty, cfg, head, [[int(v) for v in m] for m in mats]))
+    if not recs: return 0
+    uniq = {}
+    for n, ty, cfg, head, m in recs: uniq.setdefault((n, tuple(m[0])), len(uniq))
+    v = ['From Coq Require Import ZArith List. Import ListNotations.', 'From FastorV Require Import Base.Scalar Gen.GeneratedLinalg.', 'Local Open Scope Z_scope.']
+    for (n, A), k in sorted(uniq.items(), key=lambda kv: kv[1]):
+        src = '(fun p => nth p %s 0%%Z)' % zlist(list(A))
+        v.append('Eval vm_compute in [map (gen_adjoint%d ZS %s) (seq 0 %d); map (gen_cofactor%d ZS %s) (seq 0 %d); [gen_det%d ZS %s]; map (gen_inverse%d ZS %s) (seq 0 %d)].'
+                 % (n, src, n * n, n, src, n * n, n, src, n, src, n * n))
+    try:
+        out = parse_coq_lists(coq_eval('\n'.join(v)))
+    except RuntimeError as ex:
+        rep.violation('the kernels translated from backend/{adjoint,cofactor,determinant,inverse}.h could not be evaluated: %s' % str(ex)[-300:],
+                      {'kind': 'translated-kernels'}, no_input=True, key='closed-eval'); return 0
+    seen = set()
+    for n, ty, cfg, head, m in recs:
+        w = out[uniq[(n, tuple(m[0]))]]
+        pairs = [('adj(A)', m[1], w[0]), ('cof(A)', m[2], w[1]), ('determinant(A)', m[3], w[2])]
+        if head[2] == '1' and len(m) > 4 and w[2][0] in (1, -1): pairs.append(('inverse(A) (unimodular A)', m[4], w[3]))
+        for nm, got, want in pairs:
+            if got != want and (nm, n, ty, cfg.name) not in seen:
+                seen.add((nm, n, ty, cfg.name))
+                rep.violation('%s of a %dx%d %s integer matrix under %s differs from the kernel translated from the source: got %s, translated kernel %s' % (nm, n, n, ty, cfg.name, got, want),
+                              {'cfg': cfg.name, 'size': n, 'type': ty, 'A': m[0], 'implementation': got, 'translated': want,
+                               'compile_cmd': ' '.join(cfg.cmd('linalg.cpp', 't.exe')) + ' -DWHICH=10 -DNN=%d -DTY=%s' % (n, ty)}, key='closed:%s:%d:%s:%s' % (nm, n, ty, cfg.name))
+    return len(recs)
